@@ -79,7 +79,7 @@ func boot() (gen, com, warm *universe) {
 	}
 	gen = &universe{name: "genesis", root: root, db: db,
 		addr:  []common.Address{mk(1), common.HexToAddress("0x2f4f09b722a6e5b77be17c9a99c785fa7035a09f"), common.GenerateERC20Binding(common.BLANCE_NAME)},
-		role:  []string{"absent", "funded-no-object", "storage-only"},
+		role:  []string{"absent", "absent", "storage-only"}, // F: no account object, only a balance slot in the token contract
 		short: []string{"A", "F", "B"}}
 
 	// second start state: a storage-only account and a contract account committed on top of genesis
@@ -129,6 +129,7 @@ type slice struct {
 	ops   []Op
 	depth int
 	ft    bool
+	keep  bool // also compare IntermediateRoot(false)
 
 	m0    *model
 	okeys []string
@@ -196,7 +197,7 @@ func deepOps(a int) []Op {
 func buildSlices(thorough bool, gen, com, warm *universe) []*slice {
 	var out []*slice
 	add := func(name string, u *universe, depth int, ft bool, ops []Op) {
-		out = append(out, &slice{name: u.name + "/" + name, u: u, ops: ops, depth: depth, ft: ft})
+		out = append(out, &slice{name: u.name + "/" + name, u: u, ops: ops, depth: depth, ft: ft, keep: thorough})
 	}
 	d := func(q, t int) int {
 		if thorough {
@@ -211,6 +212,11 @@ func buildSlices(thorough bool, gen, com, warm *universe) []*slice {
 			add("core-"+u.short[a], u, d(5, 6), false, cat(coreOps(a), ctlOps()))
 		}
 	}
+	// refund, logs, access list, transient storage, interleaved with a few account letters
+	for _, u := range us {
+		y := []Op{{K: kSetNonce, A: 0, V: 7}, {K: kSetData, A: 1, S: 1, V: 1}, {K: kSuicide, A: 1}}
+		add("side", u, d(4, 5), false, cat(sideOps(), y, ctlOps()))
+	}
 	// one address at a time, all account letters (second values, GetCommittedState, balance
 	// arithmetic, transfers with a neighbour)
 	for _, u := range us {
@@ -220,10 +226,13 @@ func buildSlices(thorough bool, gen, com, warm *universe) []*slice {
 			add("account-"+u.short[a], u, d(4, 5), false, cat(acctOps(a, true), x, ctlOps()))
 		}
 	}
-	// refund, logs, access list, transient storage, interleaved with a few account letters
+	// two addresses at a time, core letters and transfers between them
 	for _, u := range us {
-		y := []Op{{K: kSetNonce, A: 0, V: 7}, {K: kSetData, A: 1, S: 1, V: 1}, {K: kSuicide, A: 1}}
-		add("side", u, d(4, 5), false, cat(sideOps(), y, ctlOps()))
+		for a := 0; a < 3; a++ {
+			b := (a + 1) % 3
+			x := []Op{{K: kTransfer, A: a, B: b, V: 4}, {K: kTransfer, A: b, B: a, V: 4}}
+			add("pair-"+u.short[a]+u.short[b], u, d(4, 5), false, cat(coreOps(a), coreOps(b), x, ctlOps()))
+		}
 	}
 	// every account-level letter on all three addresses plus cross-address transfers
 	for _, u := range us {
@@ -275,6 +284,7 @@ const (
 	modeObs     = 0 // history, dump, full observation, IntermediateRoot(true)
 	modeCold    = 1 // history, IntermediateRoot(true)
 	modeObsOnly = 2 // history, dump, full observation
+	modeKeep    = 3 // history, IntermediateRoot(false): empty objects are kept (the RPC simulation path)
 )
 
 func (s *slice) runImpl(h []Op, mode int, wantLeaves bool) (r runRes) {
@@ -294,12 +304,15 @@ func (s *slice) runImpl(h []Op, mode int, wantLeaves bool) (r runRes) {
 		if fmt.Sprint(ids) != fmt.Sprint(x.live) {
 			r.idsBad = fmt.Sprintf("ids the caller may still revert to %v, ids the AccountDB accepts %v", x.live, ids)
 		}
-		if mode != modeCold {
+		if mode == modeObs || mode == modeObsOnly {
 			r.dump = account.VerifDump(x.st, true)
 			r.obs = observe(x.st, s.u, s.ft)
 		}
-		if mode != modeObsOnly {
+		switch mode {
+		case modeObs, modeCold:
 			r.root = x.st.IntermediateRoot(true)
+		case modeKeep:
+			r.root = x.st.IntermediateRoot(false)
 		}
 		if wantLeaves {
 			r.leaves = account.VerifLeaves(x.st)
@@ -319,6 +332,7 @@ type refRes struct {
 	obs      string // answers joined by \x00
 	rootWarm common.Hash
 	rootCold common.Hash
+	rootKeep common.Hash
 }
 
 func (s *slice) ref(red []Op) *refRes {
@@ -329,6 +343,11 @@ func (s *slice) ref(red []Op) *refRes {
 	a := s.runImpl(red, modeObs, false)
 	b := s.runImpl(red, modeCold, false)
 	r := &refRes{ok: !a.panicked && !b.panicked, obs: strings.Join(a.obs, "\x00"), rootWarm: a.root, rootCold: b.root}
+	if s.keep {
+		k := s.runImpl(red, modeKeep, false)
+		r.ok = r.ok && !k.panicked
+		r.rootKeep = k.root
+	}
 	if len(s.memo) > 40000 {
 		s.memo = map[string]*refRes{}
 	}
@@ -424,17 +443,20 @@ func (s *slice) eval(h []Op) *nodeRes {
 	}
 	// a history without RevertToSnapshot only needs the observation (model oracle, state key);
 	// one with a revert is run warm (observation, then root) and cold (root only).
-	var a, b runRes
+	var a, b, k runRes
 	if hasRevert {
 		a = s.runImpl(h, modeObs, false)
 		b = s.runImpl(h, modeCold, false)
+		if s.keep {
+			k = s.runImpl(h, modeKeep, false)
+		}
 	} else {
 		a = s.runImpl(h, modeObsOnly, false)
 	}
 	res.undone = a.undone
 	sum := sha256.Sum256([]byte(a.dump + "\x00" + m.String()))
 	copy(res.key[:], sum[:16])
-	for _, r := range []runRes{a, b} {
+	for _, r := range []runRes{a, b, k} {
 		if r.panicked {
 			where := "in the final observation/root"
 			if r.at < len(h) {
@@ -446,7 +468,7 @@ func (s *slice) eval(h []Op) *nodeRes {
 			fail(failure{Class: "snapshot-ids", Detail: "live-set", Role: "-", Msg: r.idsBad})
 		}
 	}
-	if a.panicked || b.panicked {
+	if a.panicked || b.panicked || k.panicked {
 		return res
 	}
 	// oracle 1: the reference model.  In a history without RevertToSnapshot a mismatch is a
@@ -494,6 +516,9 @@ func (s *slice) eval(h []Op) *nodeRes {
 	if a.root != ref.rootWarm {
 		fail(s.explainRoot(h, red, modeObs))
 	}
+	if s.keep && k.root != ref.rootKeep {
+		fail(s.explainRoot(h, red, modeKeep))
+	}
 	return res
 }
 
@@ -502,10 +527,14 @@ func (s *slice) explainRoot(h, red []Op, mode int) failure {
 	x := s.runImpl(h, mode, true)
 	y := s.runImpl(red, mode, true)
 	when := "IntermediateRoot(true) directly after the history"
-	if mode == modeObs {
+	pre := ""
+	switch mode {
+	case modeObs:
 		when = "IntermediateRoot(true) after the history and one full observation"
+	case modeKeep:
+		when, pre = "IntermediateRoot(false) directly after the history", "keep-empty/"
 	}
-	f := failure{Class: "root-differs", Detail: "no-leaf-diff", Role: "-"}
+	f := failure{Class: "root-differs", Detail: pre + "no-leaf-diff", Role: "-"}
 	f.Msg = fmt.Sprintf("%s: %x, but %x when the reverted calls are never made", when, x.root[:6], y.root[:6])
 	tok := common.Address{}
 	if st := s.u.open(); true {
@@ -569,7 +598,7 @@ func (s *slice) explainRoot(h, red []Op, mode int) failure {
 		}
 	}
 	if len(diffs) > 0 {
-		f.Detail, f.Role = diffs[0].Detail, diffs[0].Role
+		f.Detail, f.Role = pre+diffs[0].Detail, diffs[0].Role
 		for _, d := range diffs {
 			f.Msg += " | " + d.Msg
 		}
@@ -577,11 +606,42 @@ func (s *slice) explainRoot(h, red []Op, mode int) failure {
 	return f
 }
 
+// removeOp deletes call i; if it is a Snapshot, later RevertToSnapshot calls that target a
+// younger live snapshot are renumbered (their target keeps its identity).
+func removeOp(h []Op, i int) []Op {
+	out := append(append([]Op{}, h[:i]...), h[i+1:]...)
+	if h[i].K != kSnapshot {
+		return out
+	}
+	live := 0 // live snapshots before call i = position of the removed one
+	for _, o := range h[:i] {
+		switch o.K {
+		case kSnapshot:
+			live++
+		case kRevert:
+			live = o.V
+		}
+	}
+	q := live
+	for j := i; j < len(out); j++ {
+		if out[j].K != kRevert {
+			continue
+		}
+		if out[j].V > q {
+			out[j].V--
+		} else {
+			break // the removed snapshot is targeted or dropped here: leave the rest as is
+		}
+	}
+	return out
+}
+
 // ---- reporting -------------------------------------------------------------------------------------------
 
 type caseT struct {
 	Start   string   `json:"start"`
 	FT      bool     `json:"ft,omitempty"`
+	Keep    bool     `json:"keep_empty_root,omitempty"`
 	Slice   string   `json:"slice,omitempty"`
 	Ops     []Op     `json:"ops"`
 	History []string `json:"history"`
@@ -597,19 +657,27 @@ func (s *slice) report(c *fw.Ctx, h []Op, res *nodeRes, minimise bool) {
 			// report only histories from which no single call can be removed without losing the
 			// failure: the shorter history is enumerated (and reported) on its own.
 			minimal := true
-			for i := range h {
-				h2 := append(append([]Op{}, h[:i]...), h[i+1:]...)
+			stillFails := func(h2 []Op) bool {
 				r2 := s.eval(h2)
 				if r2 == nil {
-					continue
+					return false
 				}
 				for _, f2 := range r2.fails {
 					if f2.key() == f.key() {
-						minimal = false
+						return true
 					}
 				}
-				if !minimal {
-					break
+				return false
+			}
+			for i := 0; i < len(h) && minimal; i++ {
+				h1 := removeOp(h, i)
+				if stillFails(h1) {
+					minimal = false
+				}
+				for j := i; j < len(h1) && minimal; j++ { // also pairs (a Snapshot with its Revert)
+					if stillFails(removeOp(h1, j)) {
+						minimal = false
+					}
 				}
 			}
 			if !minimal {
@@ -630,7 +698,7 @@ func (s *slice) report(c *fw.Ctx, h []Op, res *nodeRes, minimise bool) {
 		}
 		c.Outcome("fail:" + f.key())
 		msg := fmt.Sprintf("start=%s history=%v: %s", s.u.name, histStr(s.u, h), f.Msg)
-		c.Violation(sigOf(f, res.revFam), f.Class, msg, caseT{Start: s.u.name, FT: s.ft, Slice: s.name, Ops: h, History: histStr(s.u, h)})
+		c.Violation(sigOf(f, res.revFam), f.Class, msg, caseT{Start: s.u.name, FT: s.ft, Keep: s.keep, Slice: s.name, Ops: h, History: histStr(s.u, h)})
 	}
 }
 
@@ -807,7 +875,7 @@ func replay(c *fw.Ctx, raw json.RawMessage) {
 	case warm.name:
 		u = warm
 	}
-	s := &slice{name: "replay", u: u, depth: len(k.Ops), ft: k.FT}
+	s := &slice{name: "replay", u: u, depth: len(k.Ops), ft: k.FT, keep: k.Keep}
 	s.init(c)
 	res := s.eval(k.Ops)
 	if res == nil {
